@@ -120,7 +120,16 @@ def getPath : Option JVal → List String → Option JVal
   | r, [] => r
   | r, k :: ks => getPath (r.bind (fun v => v.get k)) ks
 
-def splitDots (cs : List Char) : List String := (String.ofList cs).splitOn "."
+/-- the components of a gjson path (split at '.') -/
+def splitDotsL : List Char → List (List Char)
+  | [] => [[]]
+  | c :: r =>
+    if c = '.' then [] :: splitDotsL r
+    else match splitDotsL r with
+      | h :: t => (c :: h) :: t
+      | [] => [[c]]
+
+def splitDots (cs : List Char) : List String := (splitDotsL cs).map String.ofList
 
 def mGet (m path : MStr) : Option JVal := getPath (decodeObj m) (splitDots (flat path))
 
